@@ -521,12 +521,16 @@ func runProp(p propDef, tier string, seed int64, only string) int {
 	}
 	exit := 0
 	bySig := map[string]int{}
+	sigNo := map[string]int{}
 	for _, f := range fresh {
 		bySig[f.Sig]++
 		if bySig[f.Sig] > 3 {
 			continue // at most three witnesses per signature
 		}
-		path := filepath.Join(rdir, fmt.Sprintf("%s-%d.json", p.ID, len(bySig)*10+bySig[f.Sig]))
+		if sigNo[f.Sig] == 0 {
+			sigNo[f.Sig] = len(sigNo) + 1
+		}
+		path := filepath.Join(rdir, fmt.Sprintf("%s-%d.json", p.ID, sigNo[f.Sig]*10+bySig[f.Sig]))
 		b, _ := json.MarshalIndent(map[string]interface{}{"property": p.ID, "tier": tier, "seed": seed, "idx": f.Idx,
 			"name": f.Name, "spec": f.Spec, "sig": f.Sig, "detail": f.Detail,
 			"replay": "./bin/vcheck replay " + path}, "", " ")
